@@ -47,8 +47,7 @@ class SocketInterface:
         if "result" in output.keys():
             return output["result"]
         else:
-            error_type = output["error_type"].split("'")[1]
-            raise eval(error_type)(output["error"])
+            raise output["error"]
 
     def send_and_receive_dict(self, input_dict: dict) -> dict:
         """
